@@ -1408,14 +1408,18 @@ class DiGraphLivenessSSA(DiGraphLivenessIRA):
         var_info = cur_block.infos[0].var_in.union(parent_block.infos[-1].var_out)
 
         if irblock_has_phi(irblock):
-            # Remove phi special case
-            out = set()
+            # Phi special case: a Phi source is read on the edges coming from
+            # its own parents only. This applies to the variables which are
+            # live because of the Phi: what is already live at the end of
+            # @parent, or live after the Phi, stays live
             phi_sources = self.loc_key_to_phi_parents[irblock.loc_key]
-            for var in var_info:
-                if var not in phi_sources:
-                    out.add(var)
-                    continue
-                if parent in phi_sources[var]:
+            phi_infos = cur_block.infos[0]
+            live_through = phi_infos.var_out.difference(phi_infos.kill)
+            out = set(parent_block.infos[-1].var_out)
+            for var in cur_block.infos[0].var_in:
+                if (var in live_through or
+                    var not in phi_sources or
+                    parent in phi_sources[var]):
                     out.add(var)
             var_info = out
 
